@@ -4,6 +4,7 @@
 S=$1; VC=${VC:-/tmp/vc}
 if [ -f "$S" ]; then PATCH=$(realpath $S); P=$2; else PATCH=/verif/seeded/$S/patch.diff; P=${2:-${S%-?}}; fi
 export GOFLAGS=-mod=mod GOPROXY=off GOSUMDB=off GOTOOLCHAIN=local GOWORK=off CGO_ENABLED=0
+. /verif/tools/gocache_env.sh
 D=$(mktemp -d /tmp/devseed.XXXX); mkdir -p $D/repo
 (cd /repo && git ls-files -z --cached | tar --null -T - -cf - ) | tar -xf - -C $D/repo
 (cd $D/repo && patch -p1 -s --no-backup-if-mismatch < $PATCH) || echo "PATCH FAIL"
